@@ -636,7 +636,78 @@ def run(ctx) -> list[Inst]:
     insts += _classification(ctx, visitor, rel, rules)
     insts += _dedupe(ctx, visitor, rel)
     insts += _single_atom_multiplicity(ctx, visitor, rel)
+    insts += _source_faithful(ctx, visitor, rel)
     return insts
+
+
+def _source_faithful(ctx, visitor, rel):
+    """(l) what the visitor returns is what the source says, item by item:
+      - an optional child that is absent yields None / an empty container, never a made-up non-empty value
+        (`self.visit(ctx.reaches()) if ctx.reaches() else {'overrides': True, ..}` turns "no reaches clause" into an
+        overriding one);
+      - a repeated child is taken over in full and in order: no `if x not in acc` filter on the way (a step may list
+        the same expression twice - two parallel edges);
+      - a result key filled from token text (`getText()`) is not re-assigned afterwards with a constant
+        (`Bernoulli(1)` is not `Enabled`)."""
+    out = []
+    for f in visitor.methods.values():
+        if not f.name.startswith('visit'):
+            continue
+        ctxn = f.params[1] if len(f.params) > 1 else 'ctx'
+        # absent optional child
+        for n in own_nodes(f.node):
+            if isinstance(n, ast.IfExp) and isinstance(n.test, ast.Call) and isinstance(n.test.func, ast.Attribute) \
+                    and isinstance(n.test.func.value, ast.Name) and n.test.func.value.id == ctxn and not n.test.args:
+                child = n.test.func.attr
+                o = n.orelse
+                made_up = (isinstance(o, ast.Dict) and o.keys) or (isinstance(o, (ast.List, ast.Tuple, ast.Set)) and o.elts) \
+                    or (isinstance(o, ast.Constant) and o.value not in (None, '', 0, False))
+                construct = f"(l) {f.name[5:].lower()}: an absent '{child}' yields nothing"
+                if made_up:
+                    out.append(Inst(
+                        RULE, f.short, construct, 'violation',
+                        msg=(f"when the source has no '{child}' the visitor returns '{stmt_text(o, 50)}' instead of None / "
+                             f"an empty value: a declaration that says nothing about it is compiled as if it said "
+                             f"something (consumers test the value for truth)"),
+                        file=rel, line=n.lineno, props=PROPS + ('C01', 'C03')))
+                else:
+                    out.append(Inst(RULE, f.short, construct, 'ok', file=rel, line=n.lineno, props=PROPS))
+        # repeated child filtered
+        for lp in own_nodes(f.node):
+            if isinstance(lp, ast.For) and isinstance(lp.iter, ast.Call) and isinstance(lp.iter.func, ast.Attribute) \
+                    and isinstance(lp.iter.func.value, ast.Name) and lp.iter.func.value.id == ctxn and not lp.iter.args:
+                child = lp.iter.func.attr
+                for g in ast.walk(lp):
+                    if isinstance(g, ast.If) and isinstance(g.test, ast.Compare) and len(g.test.ops) == 1 \
+                            and isinstance(g.test.ops[0], ast.NotIn) \
+                            and any(isinstance(c, ast.Call) and isinstance(c.func, ast.Attribute) and c.func.attr == 'append'
+                                    and stmt_text(c.func.value) == stmt_text(g.test.comparators[0]) for b in g.body for c in ast.walk(b)):
+                        out.append(Inst(
+                            RULE, f.short, f"(l) {f.name[5:].lower()}: every '{child}' of the source is taken over", 'violation',
+                            msg=(f"'if {stmt_text(g.test, 60)}' drops a '{child}' that equals an earlier one: the source may "
+                                 f"list the same item twice (two identical step expressions are two edges), the "
+                                 f"specification no longer says what the file says"),
+                            file=rel, line=g.lineno, props=PROPS))
+        # token text overwritten
+        from_text = {}
+        for n in own_nodes(f.node):
+            if isinstance(n, ast.Assign) and len(n.targets) == 1 and isinstance(n.targets[0], ast.Subscript) \
+                    and isinstance(n.targets[0].slice, ast.Constant) and isinstance(n.targets[0].value, ast.Name) \
+                    and 'getText' in stmt_text(n.value, 200):
+                from_text[(n.targets[0].value.id, n.targets[0].slice.value)] = n
+        for n in own_nodes(f.node):
+            if isinstance(n, ast.Assign) and len(n.targets) == 1 and isinstance(n.targets[0], ast.Subscript) \
+                    and isinstance(n.targets[0].slice, ast.Constant) and isinstance(n.targets[0].value, ast.Name):
+                k = (n.targets[0].value.id, n.targets[0].slice.value)
+                if k in from_text and n is not from_text[k] and n.lineno > from_text[k].lineno \
+                        and 'getText' not in stmt_text(n.value, 200) \
+                        and not any(isinstance(x, ast.Subscript) and stmt_text(x) == stmt_text(n.targets[0]) for x in ast.walk(n.value)):
+                    out.append(Inst(
+                        RULE, f.short, f"(l) {f.name[5:].lower()}: '{k[1]}' keeps the text of the source", 'violation',
+                        msg=(f"'{stmt_text(n, 60)}' replaces the '{k[1]}' taken from the token text "
+                             f"('{stmt_text(from_text[k], 50)}'): the specification names something the source does not"),
+                        file=rel, line=n.lineno, props=PROPS + ('C06',)))
+    return out
 
 
 def _single_atom_multiplicity(ctx, visitor, rel):
